@@ -335,6 +335,13 @@ func updateReferences(st storage.Storer, req *packp.UpdateRequests, cmdStatus ma
 				continue
 			}
 
+			// A reference must never point to an object the
+			// repository does not have.
+			if err := st.HasEncodedObject(cmd.New); err != nil {
+				setStatus(cmdStatus, firstErr, cmd.Name, fmt.Errorf("%w: missing object %s", ErrUpdateReference, cmd.New))
+				continue
+			}
+
 			ref := plumbing.NewHashReference(cmd.Name, cmd.New)
 			err := st.SetReference(ref)
 			setStatus(cmdStatus, firstErr, cmd.Name, err)
@@ -344,7 +351,19 @@ func updateReferences(st storage.Storer, req *packp.UpdateRequests, cmdStatus ma
 				continue
 			}
 
-			err := st.RemoveReference(cmd.Name)
+			// The client deletes the value it has seen: refuse when the
+			// reference has moved on since.
+			cur, err := st.Reference(cmd.Name)
+			if err != nil {
+				setStatus(cmdStatus, firstErr, cmd.Name, err)
+				continue
+			}
+			if cur.Type() == plumbing.HashReference && cur.Hash() != cmd.Old {
+				setStatus(cmdStatus, firstErr, cmd.Name, fmt.Errorf("%w: stale old value", ErrUpdateReference))
+				continue
+			}
+
+			err = st.RemoveReference(cmd.Name)
 			setStatus(cmdStatus, firstErr, cmd.Name, err)
 		case packp.Update:
 			if !exists {
@@ -352,8 +371,16 @@ func updateReferences(st storage.Storer, req *packp.UpdateRequests, cmdStatus ma
 				continue
 			}
 
+			if err := st.HasEncodedObject(cmd.New); err != nil {
+				setStatus(cmdStatus, firstErr, cmd.Name, fmt.Errorf("%w: missing object %s", ErrUpdateReference, cmd.New))
+				continue
+			}
+
+			// Compare-and-swap against the old value the client sent, so
+			// that an update based on a stale view (or racing with
+			// another push) is refused instead of overwriting.
 			ref := plumbing.NewHashReference(cmd.Name, cmd.New)
-			err := st.SetReference(ref)
+			err := st.CheckAndSetReference(ref, plumbing.NewHashReference(cmd.Name, cmd.Old))
 			setStatus(cmdStatus, firstErr, cmd.Name, err)
 		}
 	}
